@@ -902,6 +902,12 @@ func (ma *ModAnalysis) classifyStore(fn *ssa.Function, b *ssa.BasicBlock, idx in
 		}
 		return
 	}
+	if firstField != nil && firstField.X == v && st.Addr != ssa.Value(firstField) {
+		// a store into PART of a struct-valued (or array-valued) field: the function-of-the-reference model of
+		// final fields has no partial update, so such a field is an ordinary heap array
+		mark(firstField.Field, "partial store into a struct-valued field")
+		return
+	}
 	// initialisation discipline: no escape of the fresh object and no read of the same field may
 	// happen before this store on any path within the same allocation instance (back edges lead to a
 	// different instance of the allocation, so they are not followed)
